@@ -15,6 +15,7 @@ import (
 	"pgregory.net/rapid"
 
 	"verif/harness/cs"
+	"verif/harness/ev"
 	"verif/harness/gen"
 	"verif/harness/model"
 	"verif/harness/run"
@@ -311,8 +312,11 @@ func TestC10(t *testing.T) {
 }
 
 func testC10Triples(t *testing.T) {
-	col := collector("C10", ruleC10)
-	check(t, "C10", cases(40000, 2000000), 0, func(rt *rapid.T) {
+	check(t, "C10", cases(120000, 8000000), 0, propC10Triples(collector("C10", ruleC10)))
+}
+
+func propC10Triples(col *ev.Collector) func(rt *rapid.T) {
+	return func(rt *rapid.T) {
 		wide := rapid.IntRange(0, 2).Draw(rt, "wide") == 0
 		cfg := gen.ValCfg{Wide: wide, NonUTF8: true, Inf: !wide, TimeWide: true, TimeFar: true, MaxDepth: 2, LongStr: true}
 		depth := rapid.SampledFrom([]int{0, 0, 1, 2}).Draw(rt, "depth")
@@ -359,5 +363,5 @@ func testC10Triples(t *testing.T) {
 		col.Case(nt, hashOf(cse), func() interface{} {
 			return map[string]string{"a": cs.Show(a), "b": cs.Show(b), "c": cs.Show(c)}
 		}, cl...)
-	})
+	}
 }
